@@ -6,7 +6,7 @@
 From Coq Require Import List ZArith Bool.
 From VBase Require Import MachInt FieldOps ZpOps.
 From VGen Require Import F64 F62 F128.
-From VModel Require Import ExtField.
+From VModel Require Import ExtField Polynom.
 
 Section Ext.
 Context {F : Type} (O : FOps F).
@@ -34,3 +34,12 @@ Definition quad62_ops : FOps (Z * Z) := quad_ops (zp_ops P62) (f62_x2 (zp_ops P6
 Definition quad128_ops : FOps (Z * Z) := quad_ops (zp_ops P128) (f128_x2 (zp_ops P128)).
 Definition cube64_ops : FOps (Z * Z * Z) := cube_ops (zp_ops P64) (f64_x3 (zp_ops P64)).
 Definition cube62_ops : FOps (Z * Z * Z) := cube_ops (zp_ops P62) (f62_x3 (zp_ops P62)).
+
+(* mixed instantiations of eval / mul_acc: base-field polynomial at an extension point, base values accumulated
+   into extension values; E::from = q_from_base / c_from_base, mul_base = the ExtensibleField routine *)
+Definition eval_mixed_quad {F} (O : FOps F) (I : Ext2Impl F) := eval_mixed (quad_ops O I) (q_from_base O).
+Definition eval_many_mixed_quad {F} (O : FOps F) (I : Ext2Impl F) := eval_many_mixed (quad_ops O I) (q_from_base O).
+Definition mul_acc_mixed_quad {F} (O : FOps F) (I : Ext2Impl F) := mul_acc_mixed (quad_ops O I) (q_mul_base I).
+Definition eval_mixed_cube {F} (O : FOps F) (I : Ext3Impl F) := eval_mixed (cube_ops O I) (c_from_base O).
+Definition eval_many_mixed_cube {F} (O : FOps F) (I : Ext3Impl F) := eval_many_mixed (cube_ops O I) (c_from_base O).
+Definition mul_acc_mixed_cube {F} (O : FOps F) (I : Ext3Impl F) := mul_acc_mixed (cube_ops O I) (c_mul_base I).
